@@ -119,6 +119,7 @@ func (c *consumer) Commit() error {
 	}
 
 	c.offset = 0
+	verifPoint("cons.commit", c, 0)
 	c.cond.Broadcast()
 
 	return nil
@@ -133,6 +134,7 @@ func (c *consumer) Rollback() error {
 	}
 
 	c.offset = 0
+	verifPoint("cons.rollback", c, 0)
 	c.cond.Broadcast()
 
 	return nil
